@@ -60,24 +60,57 @@ class SchemaModel(Model):
         A("OperationInfo", {"response_type": "MessageType", "metadata_type": "MessageType"})
         A("ExtendedOperationInfo", {"request_type": "MessageType", "operation_type": "MessageType"})
         A("Service", {"service_pb": "ServicePb", "methods": "Map[Str,Method]", "meta": "Metadata"}, forward="service_pb")
+        A("API", {"all_methods": "Map[Str,Method]", "messages": "Map[Str,MessageType]", "services": "Map[Str,Service]",
+                  "service_yaml_config": "ServiceYaml", "enforce_valid_method_settings": "method"})
+        A("ServiceYaml", {"publishing": "Publishing"})
+        A("Publishing", {"method_settings": "Seq[MethodSettings]"})
+        A("MethodSettings", {"selector": "Str", "auto_populated_fields": "Seq[Str]"})
+        A("Opaque", {})
+        self.opaque_natives = {"yaml.dump": "Str", "yaml.__init__.dump": "Str"}
+        self.add_contract(Contract("PrimitiveType.build", params={"primitive_type": "PyType"}, result="PrimitiveType", kind="assumed",
+                                   ensures=["isinstance(result, PrimitiveType)", "result.python_type is primitive_type"],
+                                   note="repo classmethod not under proof; its two-line body constructs cls(meta=..., python_type=primitive_type)"))
 
     # PrimitiveType.__eq__(bare python type): `self.python_type is other`; dataclass __eq__ of the other wrappers
     # returns NotImplemented for a bare type, i.e. `==` is False.  (Modelled, cross-checked natively, not proved.)
     def eq_pytype(self, ex, x, tname, identity):
+        ty = x.ty.inner if isinstance(x.ty, OptT) else x.ty
+        if isinstance(ty, ObjT) and ty.name == "PyType":
+            return x.term == self.pytype_consts[tname]
         if identity:
             return z3.BoolVal(False)
-        ty = x.ty.inner if isinstance(x.ty, OptT) else x.ty
         if isinstance(ty, ObjT) and (self.is_subclass(ty.name, "AnyType") or ty.name == "AnyType"):
             pt = fn("PrimitiveType.python_type", Ref, Ref)(x.term)
             return z3.And(x.term != NONE, self.instance_of(x, "PrimitiveType"), pt == self.pytype_consts[tname])
         raise Unsupported(f"comparison of {x!r} with bare type {tname}")
 
+    def eq(self, ex, a, b, identity=False):
+        r = super().eq(ex, a, b, identity)
+        if r is not None or identity:
+            return r
+        fam = lambda v: isinstance(v.ty.inner if isinstance(v.ty, OptT) else v.ty, ObjT) and \
+            ((v.ty.inner if isinstance(v.ty, OptT) else v.ty).name in ("AnyType", "MessageType", "EnumType", "PrimitiveType"))
+        if fam(a) and fam(b):
+            # PythonType.__eq__ compares `meta`; PrimitiveType.build(t).meta is a function of t alone.  Equality between two
+            # non-primitive wrappers is structural in Python and is left uninterpreted here (reflexive).
+            pa, pb = self.instance_of(a, "PrimitiveType"), self.instance_of(b, "PrimitiveType")
+            pt = fn("PrimitiveType.python_type", Ref, Ref)
+            weq = fn("wrapper.eq", Ref, Ref, z3.BoolSort())
+            return z3.If(z3.Or(pa, pb), z3.And(pa, pb, pt(a.term) == pt(b.term)), z3.Or(a.term == b.term, weq(a.term, b.term)))
+        return None
+
     def global_name(self, ex, name, st):
         v = super().global_name(ex, name, st)
         if v is not None:
             return v
-        if name in ("utils", "keyword", "metadata", "descriptor_pb2", "field_behavior_pb2", "re", "dataclasses", "collections"):
+        if name in ("utils", "keyword", "metadata", "descriptor_pb2", "field_behavior_pb2", "re", "dataclasses", "collections", "wrappers"):
             return pyv(("module", name))
+        if name == "yaml":
+            import yaml
+            from .model import Native
+            return pyv(Native(yaml))
+        if name in ("MethodSettingsError", "ClientLibrarySettingsError", "TypeError", "ValueError", "KeyError"):
+            return pyv(("excclass", name))
         return None
 
     def obj_getattr(self, ex, base, attr, st, node):
